@@ -95,10 +95,12 @@ def run(ctx):
     N = ctx.scale(300, 7000)
     nmax = ctx.scale(18, 70)
     classes = ["FuzzyART", "ART1", "HypersphereART", "EllipsoidART", "GaussianART", "BayesianART"]
-    for i in range(N):
+    Ndual = ctx.scale(150, 3000)
+    for i in range(N + Ndual):
         r = gen.rng_for(ctx.seed, "C02", i)
-        cls = classes[i % len(classes)]
-        d = r.randint(1, 3)
+        forced_dual = i >= N
+        cls = classes[i % len(classes)] if not forced_dual else ["FuzzyART", "HypersphereART", "EllipsoidART"][i % 3]
+        d = r.randint(1, 3) if not forced_dual else r.randint(2, 3)
         n = r.randint(2, nmax)
         spec = specs.elem_spec(r, cls, specs.width(cls, d) if cls != "FuzzyART" else d)
         if cls in ("FuzzyART", "HypersphereART") and r.random() < 0.6:
@@ -115,6 +117,12 @@ def run(ctx):
         use_reset = r.random() < 0.4
         vt = gen.veto_table(r, n, n + 1)
         host = r.choice(["", "", "SimpleARTMAP/", "DualVigilanceART/", "TopoART/"]) if cls in ("FuzzyART", "HypersphereART", "EllipsoidART") else r.choice(["", "SimpleARTMAP/"])
+        if forced_dual:
+            # a candidate that fails BOTH vigilance tests followed by one whose match lies in [lower, upper):
+            # needs the two thresholds close together and activation order != match order
+            host = "DualVigilanceART/"
+            spec["rho"] = r.choice([0.75, 0.875, 0.8])
+            use_reset = r.random() < 0.2
         rep = {"class": cls, "host": host, "spec": spec, "X": X.tolist(), "mode": mode, "reset": use_reset, "veto": vt if use_reset else None}
         try:
             m = make(spec)
@@ -126,7 +134,7 @@ def run(ctx):
             elif host == "DualVigilanceART/":
                 if spec["rho"] == 0.0:
                     spec["rho"] = 0.5
-                lb = r.choice([t for t in [0.0, 0.125, 0.25] if t < spec["rho"]])
+                lb = r.choice([t for t in ([0.0, 0.125, 0.25] if not forced_dual else [0.5, 0.625, 0.7]) if t < spec["rho"]])
                 est = make({"cls": "DualVigilanceART", "base_module": spec, "rho_lower_bound": lb})
                 m = est.base_module
             elif host == "TopoART/":
